@@ -473,7 +473,7 @@ pub mod cffgen {
         }
     }
 
-    fn subr_bytes(global: bool, k: usize, n_gsubrs: usize) -> Vec<u8> {
+    pub fn subr_bytes(global: bool, k: usize, n_gsubrs: usize) -> Vec<u8> {
         let mut b = Buf::new();
         let (dx, dy) = subr_delta(global, k);
         cs_int(&mut b, dx as i32);
